@@ -2,7 +2,7 @@
 import asyncio
 
 from .common import (REAL_BASE, STUB_BASE, HOST, PORT, Result, Space, World, codec, TICK, rand_bytes,
-                     n_combos_upto, nth_combo_upto)
+                     n_combos_upto, nth_combo_upto, SimDeadlock, SimStepLimit)
 
 ID = "C04"
 LEVEL = "exploration"
@@ -10,6 +10,9 @@ RULE = ("A case is (byte stream of 1..4 V3 packets with optional marker-free gar
         "set of TCP cut points, inter-segment gap mode). Part 'small_exhaustive' enumerates every placement of "
         "<=3 cut points for each of a fixed list of small streams; part 'random' draws streams (payload 0..600, "
         "payloads containing the marker bytes at every alignment) and cut sets of any size incl. byte-by-byte. "
+        "Part 'client_write_between_segments' works at LAN level on an authenticated V3 connection: the device has "
+        "sent only the first k bytes of a report when LAN.send writes (and re-writes) its request; the rest arrives "
+        "with the response; every report must be returned exactly once, before the response. "
         "Distinct = distinct (stream, cuts, gap); non-trivial = at least one cut point or garbage byte or >=2 packets.")
 ASSUMPTIONS = [
     "SimTransport reproduces the asyncio.Transport contract msmart relies on (DESIGN 1.3)",
@@ -54,7 +57,67 @@ class _StreamServer:
         pass
 
 
+def run_lan(plan):
+    """LAN level: the client writes (and re-writes) its request while an inbound packet is only partly there."""
+    from .session import Session
+    s = Session(plan, max_iterations=20_000)
+    w = s.world
+    dev = s.dev
+    res = Result()
+    reply = bytes.fromhex(plan["reply"])
+    dev.raw_frame_handler = lambda conn, frame, key, d: [reply]
+
+    got_all_pending = [False]
+
+    async def main(w):
+        s.make_clients()
+        o = await s.do({"op": "lan_auth"})
+        if o.kind != "ok":
+            res.fail(f"genuine handshake failed: {o.exc_type}", repr(o.exc))
+            return
+        unsols, got_all = [], []
+        for k, drops in list(plan["rounds"]) + [[0, 0]]:
+            unsol = None
+            if k:
+                await s.do({"op": "dev_partial", "k": k})
+                unsol = dev.last_unsolicited_frame if dev.pending_tail else None
+            if unsol is not None:
+                unsols.append(unsol)
+                w.fire("client_write_between_segments_of_inbound_packet")
+            # the rest of the report travels in the next segment the device sends (with the response, or alone
+            # when the device stays silent on the first transmission)
+            net = [{"drop": True}] * drops + [{}]
+            o = await s.do({"op": "send", "frame": "aa0155", "retries": 1 + drops, "net": net})
+            if o.kind != "ok":
+                res.fail(f"LAN.send raised {o.exc_type}", repr(o.exc))
+                return
+            got = list(o.value)
+            if not drops and got != ([unsol] if unsol is not None else []) + [reply] and not got_all_pending[0]:
+                res.fail("packet split around a client write was not delivered exactly once, in order",
+                         f"k={k}: got {[g.hex()[:24] for g in got]} expected report then response")
+                return
+            got_all.extend(got)
+            got_all_pending[0] = bool(drops)      # a late response to a retransmission may show up in the next send
+            await asyncio.sleep(0.5)
+        reports = [g for g in got_all if g != reply]
+        if reports != unsols:
+            res.fail("packet split around a client write was not delivered exactly once, in order",
+                     f"reports delivered {len(reports)} of {len(unsols)} sent: {[g.hex()[:24] for g in reports]}")
+
+    try:
+        w.run(main)
+    except (SimDeadlock, SimStepLimit) as e:
+        res.fail(f"liveness: {type(e).__name__}", str(e))
+    res.take(w)
+    res.add_fired(dev.fired)
+    res.key = ("lan", plan["reply"], repr(plan["rounds"]), plan["config"].get("key"))
+    res.nontrivial = True
+    return res
+
+
 def run(plan):
+    if plan.get("mode") == "lan":
+        return run_lan(plan)
     w = World(seed=plan.get("seed", 0), max_iterations=60_000)
     res = Result()
     stream, payloads = build_stream(plan["ops"])
@@ -236,6 +299,13 @@ def space(tier):
                 continue
             sp.add(f"small_exhaustive[{si},{'gap0' if gap0 else 'gap'}]", cnt, fn, exhaustive=True)
 
+    def lan(j, rng):
+        return {"mode": "lan", "config": {"version": 3, "key": rand_bytes(rng, 32).hex(), "token": rand_bytes(rng, 64).hex()},
+                "reply": rand_bytes(rng, rng.randint(1, 60)).hex(),
+                "rounds": [[rng.choice([1, 2, 5, 6, 7, 8, 9, 40, 100, 1000, rng.randint(1, 150)]), rng.choice([0, 0, 1])]
+                           for _ in range(rng.randint(1, 3))]}
+    sp.add("client_write_between_segments", 1500 if tier == "quick" else 150_000, lan)
+
     def rnd(j, rng):
         ops = []
         npk = rng.randint(1, 4)
@@ -286,6 +356,14 @@ def space(tier):
 
 
 def simplify(plan):
+    if plan.get("mode") == "lan":
+        import json as _j
+        for i in range(len(plan["rounds"])):
+            if len(plan["rounds"]) > 1:
+                c = _j.loads(_j.dumps(plan))
+                del c["rounds"][i]
+                yield c
+        return
     cuts = plan.get("cuts", [])
     for i in range(len(cuts)):
         c = dict(plan)
